@@ -16,9 +16,6 @@ use java_string::{JavaStr, JavaString};
 
 // ---------------------------------------------------------------------------------------------------- codec
 
-fn jstring(cps: &[u32]) -> JavaString {
-	Sexp::cps(cps).as_jstring().expect("code points")
-}
 fn cps_of(s: &JavaStr) -> Vec<u32> { s.chars().map(|c| c.as_u32()).collect() }
 fn cp(s: &str) -> Vec<u32> { s.chars().map(|c| c as u32).collect() }
 
@@ -153,6 +150,10 @@ fn name_valid(kind: &str, s: &JavaStr) -> Option<bool> {
 		"method" => MethodName::is_valid(s),
 		"param" => ParameterName::is_valid(s),
 		"local" => LocalVariableName::is_valid(s),
+		// the descriptor newtypes: `check_valid` is `Ok(())` (TODO in the code), validation happens in `parse()`
+		"fdesc" => FieldDescriptor::is_valid(s),
+		"mdesc" => MethodDescriptor::is_valid(s),
+		"rdesc" => ReturnDescriptor::is_valid(s),
 		_ => return None,
 	})
 }
@@ -179,6 +180,7 @@ fn field_type_len(s: &[u32]) -> Option<usize> {
 }
 fn is_field_desc(s: &[u32]) -> bool { field_type_len(s) == Some(s.len()) }
 fn is_return_desc(s: &[u32]) -> bool { s == [0x56] || is_field_desc(s) }
+fn is_array_desc(s: &[u32]) -> bool { s.first() == Some(&0x5b) && is_field_desc(s) }
 /// parameter slot sizes if `s` is a method descriptor
 fn method_desc_slots(s: &[u32]) -> Option<Vec<usize>> {
 	if s.first() != Some(&0x28) { return None; }
@@ -192,12 +194,13 @@ fn method_desc_slots(s: &[u32]) -> Option<Vec<usize>> {
 	}
 	if is_return_desc(&s[i..]) { Some(slots) } else { None }
 }
+/// the *documented* meaning of each name type
 fn name_spec(kind: &str, s: &[u32]) -> Option<bool> {
 	Some(match kind {
-		// as coded: every string starting with `[` is an array class name (documented: array field descriptors only)
-		"arr" => s.first() == Some(&0x5b),
-		"class" => s.first() == Some(&0x5b) || is_class_name(s),
-		"obj" => is_class_name(s),
+		// "Array class names always start with `[` followed by a field descriptor" / "must be an array field descriptor"
+		"arr" => is_array_desc(s),
+		"class" => is_array_desc(s) || is_class_name(s),
+"obj" => is_class_name(s),
 		"field" | "param" | "local" => is_ident(s),
 		"method" => is_method_ident(s),
 		_ => return None,
@@ -318,12 +321,46 @@ fn exec(op: &str, args: &[Sexp]) -> Ans {
 		("oracle-name-spec", [k, s]) => {
 			let js = tr!(s.as_jstring());
 			let k = tag(k);
-			match (name_valid(&k, &js), name_spec(&k, &tr!(s.as_cps()))) {
+			let c = tr!(s.as_cps());
+			// proved domain (`ArrNameDomain`): the as-coded array check accepts every `[`-prefixed string (known finding)
+			if (k == "arr" || k == "class") && c.first() == Some(&0x5b) && !is_array_desc(&c) { return Ans::out_of_domain(); }
+			match (name_valid(&k, &js), name_spec(&k, &c)) {
 				(Some(a), Some(b)) => if a == b { Ans::pass() } else { Ans::fail(&k) },
 				_ => Ans::BadOp("kind".into()),
 			}
 		}
-		("oracle-split-join", [s]) => {
+		("oracle-join-split", [p, i]) => {
+			let (pj, ij) = (tr!(p.as_jstring()), tr!(i.as_jstring()));
+			let ic = tr!(i.as_cps());
+			let Ok(pn) = ObjClassName::try_from(pj) else { return Ans::out_of_domain() };
+			if !FieldName::is_valid(&ij) || ic.contains(&0x24) { return Ans::out_of_domain(); }
+			let Ok(inn) = ObjClassName::try_from(ij) else { return Ans::fail("inner_not_obj") };
+			let j = ObjClassName::from_inner_class(pn.clone(), &inn);
+			if !ObjClassName::is_valid(j.as_inner()) { return Ans::fail("join_invalid"); }
+			match j.split_inner_class_parent_and_name() {
+				Some((a, b)) if a == pn.as_slice() && b == inn.as_slice() => Ans::pass(),
+				_ => Ans::fail("differs"),
+			}
+		}
+		("oracle-dimension", [s]) => {
+			let c = tr!(s.as_cps());
+			if !is_array_desc(&c) { return Ans::out_of_domain(); }
+			let Ok(a) = ArrClassName::try_from(tr!(s.as_jstring())) else { return Ans::out_of_domain() };
+			let want = c.iter().take_while(|&&x| x == 0x5b).count();
+			match guarded(|| a.dimension()) { Some(d) if d as usize == want => Ans::pass(), _ => Ans::fail("dimension") }
+		}
+		("oracle-from-class", [s]) => {
+			let c = tr!(s.as_cps());
+			let js = tr!(s.as_jstring());
+			let Ok(cn) = ClassName::try_from(js.clone()) else { return Ans::out_of_domain() };
+			let d = FieldDescriptor::from_class(&cn).into_inner();
+			if is_array_desc(&c) { return if d == js { Ans::pass() } else { Ans::fail("arr") }; }
+			if !is_class_name(&c) { return Ans::out_of_domain(); }
+			let mut want = vec![0x4c]; want.extend(&c); want.push(0x3b);
+			let parsed_back = matches!(parse_field(&d), Some(Type::Object(n)) if n.as_inner() == js.as_java_str());
+			if cps_of(&d) == want && parsed_back { Ans::pass() } else { Ans::fail("obj") }
+		}
+("oracle-split-join", [s]) => {
 			let Ok(s) = ObjClassName::try_from(tr!(s.as_jstring())) else { return Ans::out_of_domain() };
 			match s.split_inner_class_parent_and_name() {
 				None => Ans::out_of_domain(),
@@ -447,6 +484,10 @@ fn gen(r: &mut Rng, tier: Tier, out: &mut Out) {
 				out.op("name-valid", &[Sexp::tag("class"), Sexp::cps(&s)]);
 				out.op("arr-dimension", &[Sexp::cps(&s)]);
 				out.op("from-class", &[Sexp::cps(&s)]);
+				out.op("oracle-dimension", &[Sexp::cps(&s)]);
+				out.op("oracle-from-class", &[Sexp::cps(&s)]);
+				out.op("oracle-name-spec", &[Sexp::tag("arr"), Sexp::cps(&s)]);
+				out.op("oracle-name-spec", &[Sexp::tag("class"), Sexp::cps(&s)]);
 			}
 			out.stats.hit(&format!("dims:{d}"));
 		}
@@ -506,8 +547,13 @@ fn gen(r: &mut Rng, tier: Tier, out: &mut Out) {
 			out.op("simple-name", &[Sexp::cps(n)]);
 			out.op("split", &[Sexp::cps(n)]);
 			out.op("oracle-split-join", &[Sexp::cps(n)]);
+			out.op("oracle-from-class", &[Sexp::cps(n)]);
 		}
-		if one.dims > 0 { out.op("arr-dimension", &[Sexp::cps(&one.text())]); out.op("from-class", &[Sexp::cps(&one.text())]); }
+		if one.dims > 0 {
+			out.op("arr-dimension", &[Sexp::cps(&one.text())]); out.op("from-class", &[Sexp::cps(&one.text())]);
+			out.op("oracle-dimension", &[Sexp::cps(&one.text())]); out.op("oracle-from-class", &[Sexp::cps(&one.text())]);
+			out.op("oracle-name-spec", &[Sexp::tag("arr"), Sexp::cps(&one.text())]);
+		}
 		// mutations
 		for _ in 0..2 {
 			let (kind, base) = if r.chance(1, 2) { ("method", &text) } else { (*r.pick(&["field", "return"]), &one.text()) };
@@ -535,6 +581,7 @@ fn gen(r: &mut Rng, tier: Tier, out: &mut Out) {
 	}
 	// ---- 4. name predicates: all short strings over  . ; [ / < > $ a
 	let kinds = ["class", "arr", "obj", "field", "method", "param", "local"];
+	let desc_kinds = ["fdesc", "mdesc", "rdesc"];
 	let name_alpha = cp(".;[/<>$a");
 	for len in 0..=(if thorough { 6 } else { 4 }) {
 		let mut n = 0u64;
@@ -546,7 +593,10 @@ fn gen(r: &mut Rng, tier: Tier, out: &mut Out) {
 			}
 			out.lines.push(format!("split {}", Sexp::cps(s)));
 			out.lines.push(format!("simple-name {}", Sexp::cps(s)));
-			if len <= 3 { out.lines.push(format!("oracle-split-join {}", Sexp::cps(s))); out.lines.push(format!("arr-dimension {}", Sexp::cps(s))); out.lines.push(format!("from-class {}", Sexp::cps(s))); }
+			if len <= 3 {
+				for op in ["oracle-split-join", "arr-dimension", "from-class", "oracle-dimension", "oracle-from-class"] { out.lines.push(format!("{op} {}", Sexp::cps(s))); }
+				for k in desc_kinds { out.lines.push(format!("name-valid {k} {}", Sexp::cps(s))); }
+			}
 		});
 		out.stats.add(&format!("exhaustive-names:len{len}"), n);
 	}
@@ -556,6 +606,8 @@ fn gen(r: &mut Rng, tier: Tier, out: &mut Out) {
 		enumerate(&inner_alpha, len, |s| {
 			out.lines.push(format!("split {}", Sexp::cps(s)));
 			out.lines.push(format!("oracle-split-join {}", Sexp::cps(s)));
+			// every way of cutting the string into (parent, inner)
+			if len <= 4 { for cut in 0..=s.len() { out.lines.push(format!("oracle-join-split {} {}", Sexp::cps(&s[..cut]), Sexp::cps(&s[cut..]))); } }
 		});
 	}
 	// special method names and their neighbours, unicode, surrogates
@@ -582,13 +634,17 @@ fn gen(r: &mut Rng, tier: Tier, out: &mut Out) {
 		out.op("arr-dimension", &[Sexp::cps(s)]);
 		out.op("from-class", &[Sexp::cps(s)]);
 		out.op("oracle-split-join", &[Sexp::cps(s)]);
+		out.op("oracle-dimension", &[Sexp::cps(s)]);
+		out.op("oracle-from-class", &[Sexp::cps(s)]);
+		for k in desc_kinds { out.op("name-valid", &[Sexp::tag(k), Sexp::cps(s)]); }
 		out.op("desc-parse3", &[Sexp::cps(s)]);
 	}
 	for _ in 0..nrand {
 		let p = gen_class_name(r, true); let p = if r.chance(1, 6) { mutate(r, &p) } else { p };
 		let i = if r.chance(1, 5) { gen_class_name(r, true) } else { gen_ident(r, true) }; let i = if r.chance(1, 6) { mutate(r, &i) } else { i };
 		out.op("join", &[Sexp::cps(&p), Sexp::cps(&i)]);
-		let mut s = p.clone(); s.push(0x24); s.extend(&i);
+		out.op("oracle-join-split", &[Sexp::cps(&p), Sexp::cps(&i)]);
+let mut s = p.clone(); s.push(0x24); s.extend(&i);
 		out.op("split", &[Sexp::cps(&s)]);
 		out.op("oracle-split-join", &[Sexp::cps(&s)]);
 	}
